@@ -43,6 +43,11 @@ FUNCS = [
     params=[("phase", "SPEPhase"), ("progress", "rat")],
     ret="Rat × Rat",
   ),
+  dict(
+    module="libsigopt/views/rest/gp_next_points_categorical.py", func="get_discrete_conversion_option", enum="ConvOption",
+    params=[("domain", "opaque")], bind={"number_of_integer_components": "int", "product_of_cats": "int"},
+    ret="ConvOption", strings=True,
+  ),
 ]
 
 
@@ -58,6 +63,7 @@ class Tr:
     self.sentinels = sentinels       # name -> enum type
     self.env = {}                    # local name -> type
     self.rnd = []                    # oracle parameters (name, lo expr, hi expr)
+    self.rnd_nodes = {}              # AST node id -> oracle parameter (a call site is one draw, however often it is visited)
     self.denoms = []                 # (lean expr string, free local names)
     self.prelude = []                # [(name, type, lean expr)] top-level lets, for f_denoms
 
@@ -74,6 +80,8 @@ class Tr:
     if isinstance(n, ast.Constant):
       if isinstance(n.value, bool):
         return ("true" if n.value else "false"), "bool"
+      if isinstance(n.value, str) and self.spec.get("strings"):
+        return f"{self.spec['enum']}.{n.value}", self.spec["enum"]
       if isinstance(n.value, (int, float)):
         q = _lit_to_fraction(n, self.src)
         if isinstance(n.value, int):
@@ -110,6 +118,8 @@ class Tr:
           self.denoms.append(self.cast(b, tb, "rat"))
           return f"({a} % {b})", "int"   # Int.emod: sign follows Python for positive modulus
         raise TranslationError("% on non-integers")
+      if isinstance(n.op, ast.Pow) and ta == "int" and tb == "int":
+        return f"({a} ^ ({b}).toNat)", "int"   # integer power with a non-negative exponent
       op = {ast.Add: "+", ast.Sub: "-", ast.Mult: "*"}.get(type(n.op))
       if op is None:
         raise TranslationError(f"operator {type(n.op).__name__}")
@@ -123,7 +133,10 @@ class Tr:
         t = "int" if ta == tb == "int" else "rat"
         return f"({fn} {self.cast(a, ta, t)} {self.cast(b, tb, t)})", t
       if fn in ("numpy.random.uniform", "numpy.random.random"):
+        if id(n) in self.rnd_nodes:
+          return self.rnd_nodes[id(n)], "rat"
         name = f"rnd{len(self.rnd)}"
+        self.rnd_nodes[id(n)] = name
         if fn.endswith("uniform"):
           lo = self.cast(*self.expr(n.args[0]), "rat")
           hi = self.cast(*self.expr(n.args[1]), "rat")
@@ -185,6 +198,38 @@ class Tr:
     raise TranslationError("truthiness of non-bool")
 
   # ---------------------------------------------------------------- statements
+  def val(self, nm, stmts, cur):
+    """value of `nm` after running the (assignment / if) statements, as one Lean expression; cur = value before"""
+    for idx, x in enumerate(stmts):
+      if isinstance(x, ast.Expr) and isinstance(x.value, ast.Constant):
+        continue
+      if isinstance(x, ast.Assign) and len(x.targets) == 1 and isinstance(x.targets[0], ast.Name):
+        s_, t = self.expr(x.value)
+        tgt = x.targets[0].id
+        if tgt == nm:
+          cur = (s_, t)
+          self.env[nm] = t
+        else:
+          self.env[tgt] = t
+          rest = self.val(nm, stmts[idx + 1:], cur)
+          if rest is None:
+            return None
+          return (f"(let {tgt} : {LEAN_T.get(t, t)} := {s_}; {rest[0]})", rest[1])
+      elif isinstance(x, ast.If):
+        c = self.boolean(x.test)
+        saved = dict(self.env)
+        a = self.val(nm, x.body, cur)
+        self.env = dict(saved)
+        b = self.val(nm, x.orelse, cur) if x.orelse else cur
+        self.env = saved
+        if a is None or b is None:
+          return None
+        t = a[1] if a[1] == b[1] else "rat"
+        cur = (f"(if {c} then {self.cast(a[0], a[1], t)} else {self.cast(b[0], b[1], t)})", t)
+      else:
+        raise TranslationError(f"unsupported statement in assigning branch: {type(x).__name__}")
+    return cur
+
   def branch_assignments(self, body):
     """body consisting only of assignments -> ordered [(name, expr node)]"""
     out = []
@@ -233,63 +278,40 @@ class Tr:
         if b is None:
           raise TranslationError("if without else at end")
         return f"{pad}if {c} then\n{a}\n{pad}else\n{b}"
-      # assigning if: collect branches
-      branches = []
-      node = st
-      while True:
-        branches.append((node.test, self.branch_assignments(node.body)))
-        if len(node.orelse) == 1 and isinstance(node.orelse[0], ast.If):
-          node = node.orelse[0]
-        else:
-          if not node.orelse:
-            raise TranslationError("assigning if without else")
-          branches.append((None, self.branch_assignments(node.orelse)))
-          break
+      # assigning if (possibly nested): every name assigned anywhere inside becomes `let name := <if-expression>`
       names = []
-      for _c, asg in branches:
-        for nm, _e in asg:
-          if nm not in names:
-            names.append(nm)
-      # names not assigned in every branch are branch-local temporaries; they must not be used later
-      common = [nm for nm in names if all(any(nm == a for a, _e in asg) for _c, asg in branches)]
+      def collect(body):
+        for x in body:
+          if isinstance(x, ast.Assign) and len(x.targets) == 1 and isinstance(x.targets[0], ast.Name):
+            if x.targets[0].id not in names:
+              names.append(x.targets[0].id)
+          elif isinstance(x, ast.If):
+            collect(x.body)
+            collect(x.orelse)
+          elif isinstance(x, ast.Expr) and isinstance(x.value, ast.Constant):
+            continue
+          else:
+            raise TranslationError(f"unsupported statement in assigning branch: {type(x).__name__}")
+      collect([st])
       later = set()
       for r in rest:
         later |= names_used(r)
-      for nm in names:
-        if nm not in common and nm in later:
-          raise TranslationError(f"{nm} not assigned in every branch but used afterwards")
-      names = common
       out = ""
       for nm in names:
+        if nm not in later and nm not in self.env:
+          continue   # branch-local temporary: inlined by `val` where needed
         saved = dict(self.env)
-        pieces = []
-        typ = None
-        for cnd, asg in branches:
-          self.env = dict(saved)
-          lets = ""
-          val = None
-          for nm2, e in asg:
-            s, t = self.expr(e)
-            self.env[nm2] = t
-            if nm2 == nm:
-              val, vt = s, t
-              break
-            lt = LEAN_T.get(t, t)
-            lets += f"let {nm2} : {lt} := {s}; "
-          if val is None:
-            raise TranslationError(f"{nm} not assigned in every branch")
-          typ = vt if typ in (None, vt) else "rat"
-          self.env = dict(saved)
-          pieces.append((self.boolean(cnd) if cnd is not None else None, lets + val))
+        cur = (nm, self.env[nm]) if nm in self.env else None
+        res = self.val(nm, [st], cur)
         self.env = saved
-        s = ""
-        for cnd, v in pieces:
-          s += f"if {cnd} then ({v}) else " if cnd is not None else f"({v})"
+        if res is None:
+          raise TranslationError(f"{nm} not assigned on every path")
+        s_, typ = res
         self.env[nm] = typ
         lt = LEAN_T.get(typ, typ)
         if top:
-          self.prelude.append((nm, lt, s))
-        out += f"{pad}let {nm} : {lt} := {s}\n"
+          self.prelude.append((nm, lt, s_))
+        out += f"{pad}let {nm} : {lt} := {s_}\n"
       return out + self.stmts(rest, indent, top)
     raise TranslationError(f"statement {type(st).__name__}")
 
@@ -343,19 +365,39 @@ def generate(repo, gen_dir):
       declared = [a.arg for a in fn.args.args]
       if declared != [p[0] for p in spec["params"]]:
         raise TranslationError(f"parameter list changed: {declared}")
+      body_stmts = list(fn.body)
+      extra_params = []
+      if spec.get("bind"):
+        # leading assignments that read opaque objects become parameters of the translated function
+        while body_stmts and isinstance(body_stmts[0], ast.Assign) and len(body_stmts[0].targets) == 1 \
+            and isinstance(body_stmts[0].targets[0], ast.Name) and body_stmts[0].targets[0].id in spec["bind"]:
+          nm = body_stmts[0].targets[0].id
+          extra_params.append((nm, spec["bind"][nm]))
+          body_stmts.pop(0)
+        if [p[0] for p in extra_params] != list(spec["bind"]):
+          raise TranslationError(f"expected leading assignments {list(spec['bind'])}, found {[p[0] for p in extra_params]}")
       used = names_used(fn)
       enum = spec["enum"]
+      if spec.get("strings") and enum not in enums:
+        lits = []
+        for nd in ast.walk(fn):
+          if isinstance(nd, ast.Constant) and isinstance(nd.value, str) and nd.value.isidentifier() and nd.value not in lits:
+            if not (isinstance(getattr(nd, "_parent", None), ast.Expr)):
+              lits.append(nd.value)
+        doc = ast.get_docstring(fn)
+        enums[enum] = [l for l in lits if l != doc]
       if enum not in enums:
         # sentinels of the module, in definition order: object() sentinels, or the string constants used as phases
         cand = sent_obj if sent_obj else [k for k in strings if k.endswith("_PHASE")]
         enums[enum] = cand
       sentinels = {nm: enum for nm in enums[enum]}
       tr = Tr(src, tree, spec, consts, sentinels)
-      for nm, t in spec["params"]:
+      all_params = [p for p in spec["params"] if p[1] != "opaque"] + extra_params
+      for nm, t in all_params:
         tr.env[nm] = t
-      body = tr.stmts(fn.body, 1, True)
+      body = tr.stmts(body_stmts, 1, True)
       ptypes = {"int": "Int", "rat": "Rat", "bool": "Bool"}
-      params = " ".join(f"({nm} : {ptypes.get(t, t)})" for nm, t in spec["params"])
+      params = " ".join(f"({nm} : {ptypes.get(t, t)})" for nm, t in all_params)
       params += "".join(f" ({nm} : Rat)" for nm, _lo, _hi in tr.rnd)
       text = f"-- {spec['module']}: {spec['func']}\n"
       text += f"def {spec['func']} {params} : {spec['ret']} :=\n{body}\n\n"
